@@ -714,27 +714,35 @@ func (v *Protocol) WritePacket(pkt Packet, streamID int) (err error) {
 	m.streamID = uint32(streamID)
 	m.betterCid = pkt.BetterCid()
 
-	if err = v.WriteMessage(m); err != nil {
-		return oe.WithMessage(err, "write message")
-	}
-
+	// Register the request before any byte of it is sent, because the
+	// response may arrive before the write returns.
 	if err = v.onPacketWriten(m, pkt); err != nil {
 		return oe.WithMessage(err, "on write packet")
+	}
+
+	if err = v.WriteMessage(m); err != nil {
+		// The request is not sent, so there is no response to match.
+		v.onPacketWriteFailed(pkt)
+		return oe.WithMessage(err, "write message")
 	}
 
 	return
 }
 
-func (v *Protocol) onPacketWriten(m *Message, pkt Packet) (err error) {
-	var tid amf0.Number
-	var name amf0.String
-
+// Get the transaction of request packet, which requires a response.
+func requestTransaction(pkt Packet) (tid amf0.Number, name amf0.String) {
 	switch pkt := pkt.(type) {
 	case *ConnectAppPacket:
 		tid, name = pkt.TransactionID, pkt.CommandName
 	case *CreateStreamPacket:
 		tid, name = pkt.TransactionID, pkt.CommandName
 	}
+
+	return
+}
+
+func (v *Protocol) onPacketWriten(m *Message, pkt Packet) (err error) {
+	tid, name := requestTransaction(pkt)
 
 	if tid > 0 && len(name) > 0 {
 		v.input.ltransactions.Lock()
@@ -744,6 +752,17 @@ func (v *Protocol) onPacketWriten(m *Message, pkt Packet) (err error) {
 	}
 
 	return
+}
+
+func (v *Protocol) onPacketWriteFailed(pkt Packet) {
+	tid, name := requestTransaction(pkt)
+
+	if tid > 0 && len(name) > 0 {
+		v.input.ltransactions.Lock()
+		defer v.input.ltransactions.Unlock()
+
+		delete(v.input.transactions, tid)
+	}
 }
 
 func (v *Protocol) onMessageArrivated(m *Message) (err error) {
